@@ -5,8 +5,9 @@ import GomlVerif.Gen.NumTypes
 /-!
 C10 — numbers mean what they say.  Theorems over `Model/Num.lean` and the generated tables `Gen/*`.
 
-* literals: `lit_accept_iff`, `lit_accept_value`, `lit_reject_kind`, `lit_value`, `lit_leading_zeros`
-* tables:   `num_types_consistent`, `lit_forms_consistent`, `to_string_verbs_ok`
+* literals: `lit_accept_iff`, `lit_accept_value`, `lit_reject_kind`, `lit_value`, `lit_leading_zeros`,
+  `neg_lit_value`, `neg_lit_min_unwritable`
+* tables:   `num_types_consistent`, `lit_forms_consistent`, `pat_forms_consistent`, `to_string_covers`, `to_string_verbs_ok`
 * operators: `opmap_faithful_bin`, `opmap_faithful_un` (for every operator of the generated map, every
   width and signedness, all operand values), spec-pinning lemmas `wrap_mod`, `wrap_signed_range`, `div_trunc`,
   `div_min_neg_one`, `div_zero_panics`, `cmp_signed`, `cmp_unsigned`
@@ -611,6 +612,49 @@ theorem wrap_of_inRange (t : IntTy) (hn : 0 < t.bits) (x : Int) (h : t.InRange x
       rw [this]; exact h.1
     · have : (((2 ^ n : Nat) : Int) + 1) / 2 = 2 ^ (n - 1) := by rw [hpow]; push_cast; omega
       rw [this]; omega
+
+/-! ### negated literals: the `-` in `-127i8` is the negation operator, the literal is checked on its own -/
+
+theorem goConst_neg_natToDec (n : Nat) : goConst ('-' :: natToDec n) = some (-(n : Int)) := by
+  have : goConst ('-' :: natToDec n) = (goIntToken (natToDec n)).map fun k => -(k : Int) := rfl
+  rw [this, goIntToken_natToDec]; rfl
+
+/-- **neg_lit_value** — at a signed type, `-<digits>` with an accepted literal means minus the written number (no
+    wrap can occur), and the emitted Go text `-<value>` is read by Go, at the declared type, as that same number -/
+theorem neg_lit_value (u : Bool) (t : IntTy) (hsg : t.signed = true) (hn : 0 < t.bits) (s : List Char)
+    (hs : IsDigits s) (v : Int) (h : checkLit u t s = .accept v) :
+    semUnInt .neg t v = .int (-(decVal s : Int)) ∧ goTyped t ('-' :: goLit v) = some (-(decVal s : Int)) := by
+  have hr : t.InRange (decVal s : Int) := (lit_accept_iff u t s hs).mp ⟨v, h⟩
+  obtain ⟨hv, _⟩ := lit_accept_value u t s hs v h
+  subst hv
+  have hnn : (0 : Int) ≤ (decVal s : Int) := Int.natCast_nonneg _
+  have hneg : t.InRange (-(decVal s : Int)) := by
+    unfold IntTy.InRange IntTy.minVal IntTy.maxVal at *
+    rw [if_pos hsg] at hr ⊢
+    rw [if_pos hsg] at hr ⊢
+    omega
+  constructor
+  · simp only [semUnInt, wrap_of_inRange t hn _ hneg]
+  · have hl : goLit (decVal s : Int) = natToDec (decVal s) := by
+      unfold goLit intToDec
+      rw [if_neg (by omega)]; rfl
+    rw [hl]
+    unfold goTyped
+    rw [goConst_neg_natToDec]
+    simp only [hneg, if_true]
+
+/-- **neg_lit_min_unwritable** — consequently the most negative value of a signed type has no literal form:
+    its magnitude `2^(n-1)` is rejected (`-128i8` is a compile error; `-127i8 - 1i8` is the way to write it) -/
+theorem neg_lit_min_unwritable (u : Bool) (t : IntTy) (hsg : t.signed = true) (s : List Char) (hs : IsDigits s)
+    (hm : (decVal s : Int) = -t.minVal) : checkLit u t s = .doesNotFit := by
+  apply lit_reject_kind u t s hs
+  unfold IntTy.InRange IntTy.minVal IntTy.maxVal at *
+  rw [if_pos hsg] at hm ⊢
+  rw [if_pos hsg]
+  omega
+
+example : checkLit false ⟨true, 8⟩ "127".toList = .accept 127 ∧ goTyped ⟨true, 8⟩ "-127".toList = some (-127) ∧
+    checkLit false ⟨true, 8⟩ "128".toList = .doesNotFit := by decide
 
 /-! ### Go constant folding — the reach of `opmap_faithful_*`
 
